@@ -231,11 +231,14 @@ def run_shard(desc, ctx):
     from emmet import action_utils as au
     rng = ctx.rng
     for k in range(desc['ndocs']):
-        src, recs = gen_html.gen_doc(rng, xml=False, max_depth=3)
-        if len(src) <= 500:
+        src, recs = gen_html.gen_doc(rng, xml=False, max_depth=3) if k % 8 != 4 else gen_html.gen_doc(rng, xml=False, max_depth=rng.randint(6, 9), max_children=2, max_top=1)
+        if len(src) <= (700 if k % 8 == 4 else 500):
             check_html(src, recs, ctx, au)
-        src, recs = gen_css.gen_sheet(rng, allow_nosemi=True)
-        if len(src) <= 500:
+        if k % 8 == 5:
+            src, recs = gen_css.gen_sheet(rng, allow_nosemi=True, max_top=1, max_depth=rng.randint(5, 8), max_items=2)
+        else:
+            src, recs = gen_css.gen_sheet(rng, allow_nosemi=True)
+        if len(src) <= (700 if k % 8 == 5 else 500):
             check_css(src, recs, ctx, au)
 
 
